@@ -3,6 +3,7 @@ import itertools
 
 from vlib import boxes as bx
 from vlib import readout as ro
+from vlib.readout import Reader as Reader2
 
 # declaration sets: (name, hint); masks index the product of full ranges
 GRIDS = {
@@ -120,10 +121,25 @@ def reference(grid, f_mask, care_mask):
 
 
 def read_cover(ctx, cover, names):
-    """Set of boxes encoded by a BDD over the parameters a_v, b_v."""
+    """Set of boxes encoded by a BDD over the parameters a_v, b_v.
+
+    The parameter names are the documented ones (`a_<var>`, `b_<var>`); if
+    the cover's support shows other names with the suffix `_<var>` (a
+    renaming refactor), those are used, lower before upper."""
+    supp = ctx.support(cover)
     pn = []
     for n in names:
-        pn += ['a_' + n, 'b_' + n]
+        doc = ['a_' + n, 'b_' + n]
+        other = sorted(v for v in supp if v.endswith('_' + n)
+                       and v not in doc)
+        if len(other) == 2 and not (set(doc) & supp):
+            lo, hi = other
+            rows = Reader2(ctx, other).table(ctx.exist(supp - set(other),
+                                                      cover))
+            if rows and not all(r[0] <= r[1] for r in rows):
+                lo, hi = hi, lo
+            doc = [lo, hi]
+        pn += doc
     rd = ro.Reader(ctx, pn)
     out = set()
     for row in rd.table(cover):
